@@ -24,6 +24,7 @@ type Scenario struct {
 	Timed           bool          `json:"timed"`
 	TimePerBlock    time.Duration `json:"time_per_block"`
 	MaxTimePerBlock time.Duration `json:"max_time_per_block"`
+	TimeVar         bool          `json:"time_var,omitempty"` // TimePerBlock / MaxTimePerBlock callbacks answer differently at odd and even ledger heights
 	TSIncrement     uint64        `json:"ts_increment"`
 	EpochUnix       int64         `json:"epoch_unix"`
 	TxPerBlock      int           `json:"tx_per_block"`
@@ -548,13 +549,22 @@ func (w *World) enabled() []Event {
 	have := false // default already chosen
 
 	// 1. application resets
+	resetPending := false
+	var heldResets []Event
 	for _, n := range w.nodes {
 		if n.live() && n.pendingReset {
+			resetPending = true
+			if n.resetHeld {
+				heldResets = append(heldResets, Event{K: "reset", N: n.id})
+				continue
+			}
 			add(Event{K: "reset", N: n.id}, !have)
 			have = true
+			if sc.Dev.Hold && sc.Heights > 1 {
+				alt(Event{K: "hold", N: n.id, A: 1})
+			}
 		}
 	}
-	resetPending := have
 	// 2. transaction supplies (TxLast: the application fetches slowly, a supply is the default only when nothing is deliverable)
 	txOffered := false
 	var lateTx []Event
@@ -625,6 +635,11 @@ func (w *World) enabled() []Event {
 		}
 	}
 	for _, e := range lateTx {
+		add(e, !have)
+		have = true
+	}
+	for _, e := range heldResets {
+		// a held Reset happens once nothing else is deliverable (before any further timer)
 		add(e, !have)
 		have = true
 	}
@@ -914,6 +929,13 @@ func (w *World) apply(e Event) {
 		}
 		n.Receive(p)
 	case "hold":
+		if e.A == 1 {
+			if !n.pendingReset || n.resetHeld {
+				panic(harnessFault{"replay divergence: hold of a Reset that is not pending: " + e.String()})
+			}
+			n.resetHeld = true
+			break
+		}
 		ok := false
 		for i := range w.net {
 			if w.net[i].dst == e.N && w.net[i].p.Hash() == e.P && !w.net[i].held {
@@ -1265,9 +1287,12 @@ func (n *Node) appKey() uint64 {
 	s.u64(uint64(n.height))
 	s.u64(uint64(n.tip))
 	s.u64(n.tipTS)
-	if n.pendingReset {
+	switch {
+	case n.pendingReset && n.resetHeld:
+		s.b(2)
+	case n.pendingReset:
 		s.b(1)
-	} else {
+	default:
 		s.b(0)
 	}
 	s.u64(uint64(n.incarnation))
